@@ -116,7 +116,7 @@ fn session(p: &mut Prng, w: &mut World, pfx: &str, plan: &Plan, scripted: Option
     w.exec(json!({"op":"sm2.kex.new","obj":ob,"impl":plan.impl_b,"role":"B","klen":klen,"d":s("b.d"),"pk":s("b.pk"),"id":idb_ref,"peer_id":ida_ref,"peer_pk":s("a.pk")}));
     let script = |p: &mut Prng, fixed: Option<&str>| -> Value {
         match fixed {
-            Some(h) => json!({"c":[h.to_lowercase()],"f":7}),
+            Some(h) => json!({"c":[h.to_lowercase(), h.to_lowercase(), h.to_lowercase(), h.to_lowercase()],"f":7}),
             None => rng_json(&uniform_script(p, 1)),
         }
     };
